@@ -715,6 +715,9 @@ def run(chk):
     rule_ext_order(chk, load_program("all"))
     rule_list_order(chk, load_program("all"))
     chk.floor("K11-listorder", 1)
+    from .c16 import rule_type_twins
+    rule_type_twins(chk, load_program("sqfs2tar"))
+    chk.floor("K12-twins", 3)
     chk.floor("K11-extorder", 1)
     rule_unsupported(chk, s2t)
     rule_layer_order(chk, s2t)
